@@ -338,6 +338,11 @@ pub fn scenario(g: &mut G, ctx: &RunCtx) -> RunReport {
                 };
                 match (res, parse_request(&bytes)) {
                     (Ok(()), _) => violation(format!("send-ok-although-the-body-failed:{}", plan.body_name()), "send() returned Ok although the body's own write() returned an error".to_string()),
+                    // the failure is the caller's own: nothing to wait for on the network
+                    (Err(_), _) if ran.history.end_time > attosim::NS_PER_S => violation(
+                        "send-waited-after-the-body-failed",
+                        format!("the body's source failed, yet send() only returned after {} ms of simulated time (waiting for an answer to a request it knew to be incomplete)", ran.history.end_time / attosim::NS_PER_MS),
+                    ),
                     (Err(_), ReqParse::Complete(r)) if r.body.len() <= sent_before && plan.body_name() == "custom-chunked" => violation(
                         "failed-body-passed-off-as-complete",
                         format!("the body's source failed after {} octets, yet the peer received a complete chunked request with a {}-octet body and its terminating chunk", sent_before, r.body.len()),
